@@ -6,6 +6,7 @@ package main
 
 import (
 	"fmt"
+	"math/big"
 	"sort"
 	"strings"
 	"time"
@@ -64,9 +65,10 @@ func checkValue(r *hlib.Rec, what, input string, rv refVal, got int) {
 		return
 	}
 	// |got - exact| <= 1 with exact = a + num/den*(b-a): compare den*(got-a) with num*(b-a) +- den
-	lhs := rv.den * int64(got-rv.a)
-	rhs := rv.num * int64(rv.b-rv.a)
-	if lhs-rhs > rv.den || rhs-lhs > rv.den {
+	// (in arbitrary precision: durations in nanoseconds times rates overflow int64 for long, steep stages)
+	lhs := new(big.Int).Mul(big.NewInt(rv.den), big.NewInt(int64(got-rv.a)))
+	rhs := new(big.Int).Mul(big.NewInt(rv.num), big.NewInt(int64(rv.b-rv.a)))
+	if diff := new(big.Int).Sub(lhs, rhs); diff.CmpAbs(big.NewInt(rv.den)) > 0 {
 		r.Fail("C10/"+what+"-interpolation", "off-by-more-than-1", fmt.Sprintf("got %d, exact value is %d + %d/%d*(%d)", got, rv.a, rv.num, rv.den, rv.b-rv.a), input)
 	}
 	lo, hi := rv.a, rv.b
@@ -121,6 +123,18 @@ func allLists(maxLen int) [][]stage {
 	return out
 }
 
+// tail: once all stages have elapsed the value is 0, however often and however
+// much later the same calculator is asked again.
+func tail(r *hlib.Rec, what, input string, f func(time.Time) int, total time.Duration) {
+	for _, past := range []time.Duration{1, time.Second, time.Second, 3*time.Second + 500*time.Millisecond, time.Hour, 2 * time.Hour} {
+		r.Step()
+		if v := f(t0.Add(total + past)); v != 0 {
+			r.Fail("C10/"+what+"-after-end", "nonzero-on-a-later-query", fmt.Sprintf("got %d at +%s, after the profile (total %s) had already been queried past its end", v, total+past, total), input)
+			return
+		}
+	}
+}
+
 func stagedSuite(maxLen, seqLen int, withStart bool) hlib.Suite {
 	name := fmt.Sprintf("staged/lists<=%d/query-sequences<=%d/start-given=%v", maxLen, seqLen, withStart)
 	return hlib.Suite{Name: name, Weight: 4, Run: func(r *hlib.Rec) {
@@ -170,6 +184,11 @@ func stagedSuite(maxLen, seqLen int, withStart bool) hlib.Suite {
 				rv := ref(l, t)
 				checkValue(r, "staged", input, rv, direct[i])
 				r.Distinct(fmt.Sprintf("stage=%d over=%v dir=%d", rv.stage, rv.over, sign(rv.b-rv.a)))
+				var total time.Duration
+				for _, s := range l {
+					total += s.d
+				}
+				tail(r, "staged", input, f, total)
 			}
 			// all non-decreasing sequences: stepped value must equal the direct one,
 			// and values within a stage must be monotone in the stage's direction
@@ -274,6 +293,7 @@ func rampSuite(seqLen int) hlib.Suite {
 							r.Eval()
 							rv := refv(t)
 							checkValue(r, "ramp", fmt.Sprintf("ramp %s -> %s over %s, query at +%s", sa, ea, dur, t), rv, direct[i])
+							tail(r, "ramp", fmt.Sprintf("ramp %s -> %s over %s, query at +%s", sa, ea, dur, t), f, dur)
 							r.Distinct(fmt.Sprintf("ramp over=%v dir=%d unit=%s", rv.over, sign(e-s), unit))
 						}
 						var seq func(depth, from int, prevVal int, path []time.Duration)
@@ -307,11 +327,65 @@ func rampSuite(seqLen int) hlib.Suite {
 	}}
 }
 
+// largeSuite: long and steep profiles (hours to weeks, up to 10^9 per tick):
+// nanoseconds times rate differences do not fit 64 bits.
+func largeSuite() hlib.Suite {
+	return hlib.Suite{Name: "ramp+staged/long-and-steep", Run: func(r *hlib.Rec) {
+		rates := []int{0, 1000, 200_000, 5_000_000, 1_000_000_000}
+		durs := []time.Duration{time.Hour, 2 * time.Hour, 24 * time.Hour, 30 * 24 * time.Hour}
+		for _, dur := range durs {
+			for _, a := range rates {
+				for _, b := range rates {
+					if a == b || !r.Mine() {
+						continue
+					}
+					for _, kind := range []string{"ramp", "staged"} {
+						var f func(time.Time) int
+						var input string
+						if kind == "ramp" {
+							rt, err := ramp.CalculateRampRate(fmt.Sprintf("%d/s", a), fmt.Sprintf("%d/s", b), "none", dur, 0)
+							if err != nil {
+								panic(err)
+							}
+							f, input = rt.Rate, fmt.Sprintf("ramp %d/s -> %d/s over %s", a, b, dur)
+						} else {
+							str := fmt.Sprintf("0s:%d,%s:%d", a, dur, b)
+							st, err := staged.CalculateStagedRate(0, time.Second, str, "none", nil)
+							if err != nil {
+								panic(err)
+							}
+							f, input = st.Rate, fmt.Sprintf("stages=%q", str)
+						}
+						f(t0)
+						prev, first := 0, true
+						for k := 0; k <= 64; k++ {
+							off := time.Duration(int64(dur) / 64 * int64(k))
+							if k == 64 {
+								off = dur - 1
+							}
+							v := f(t0.Add(off))
+							r.Eval()
+							checkValue(r, kind, fmt.Sprintf("%s, query at +%s", input, off), refVal{a: a, b: b, num: int64(off), den: int64(dur)}, v)
+							if !first && ((b > a && v < prev) || (b < a && v > prev)) {
+								r.Fail("C10/"+kind+"-monotone", "not-monotone", fmt.Sprintf("%d then %d at +%s", prev, v, off), input)
+							}
+							prev, first = v, false
+						}
+						tail(r, kind, input, f, dur)
+						r.Distinct(fmt.Sprintf("%s dur=%s dir=%d steep=%v", kind, dur, sign(b-a), a+b > 1_000_000))
+					}
+				}
+			}
+		}
+		r.Sample("start/end in {0, 10^3, 2x10^5, 5x10^6, 10^9} per second over {1h, 2h, 24h, 30d}, 65 instants each")
+	}}
+}
+
 func suites(tier string) []hlib.Suite {
 	if tier == "quick" {
-		return []hlib.Suite{stagedSuite(2, 2, false), stagedSuite(2, 2, true), stagedSuite(3, 1, false), rampSuite(2)}
+		return []hlib.Suite{stagedSuite(2, 2, false), stagedSuite(2, 2, true), stagedSuite(3, 1, false), rampSuite(2), largeSuite()}
 	}
-	return []hlib.Suite{stagedSuite(3, 2, false), stagedSuite(3, 2, true), stagedSuite(2, 3, false), stagedSuite(2, 3, true), rampSuite(3)}
+	return []hlib.Suite{stagedSuite(3, 2, false), stagedSuite(3, 2, true), stagedSuite(2, 3, false), stagedSuite(2, 3, true), rampSuite(3), largeSuite()}
 }
 
 func main() { hlib.EnumMain("C10", suites) }
